@@ -10,7 +10,7 @@ import cbcheck as cc
 
 def setup():
     ok = True
-    for v in ["release", "checked", "wide", "eio", "eio-async", "eio-both", "nostd", "alloc", "unstable"]:
+    for v in ["release", "checked", "wide", "eio", "eio-async", "eio-both", "eio-both-nostd", "eio-nostd", "eio-async-nostd", "nostd", "alloc", "unstable"]:
         r, info = cc.build(v, fatal=False)
         cc.log(f"build {v}: {'ok ' + info if r else 'FAILED'}")
         if not r:
@@ -91,6 +91,7 @@ def run_reports(prop, tier, seed, runs, replay_sub, assumptions, rule, scope, ex
     cov["exhaustive_scope"] = scope
     cov["regression_cases_replayed"] = nreg
     if extra_cov:
+        cov["evaluations"] += extra_cov.pop("_extra_evaluations", 0)
         cov.update(extra_cov)
     cc.write_evidence(prop, tier, seed, cov, wall, 1 if violation else 0, assumptions)
     if violation:
@@ -116,10 +117,14 @@ def run(prop, tier, seed):
         runs = [("embedded-io", "eio", ["io", "C16", "--apis", "eio"]),
                 ("embedded-io-async", "eio-async", ["io", "C16", "--apis", "eio-async"]),
                 ("both-features", "eio-both", ["io", "C16", "--apis", "eio,eio-async"])]
+        extra = c16_nostd_traces(prop, tier, seed)
         return run_reports(prop, tier, seed, runs, "replay-io",
                            ["std::io behaviour is itself checked against the byte-queue model in the same run (and by C14)",
-                            "async methods are polled exactly once with a no-op waker; Pending is a violation"],
-                           "differential: " + IO_RULE, "as C14, for each of the three feature configurations")
+                            "async methods are polled exactly once with a no-op waker; Pending is a violation",
+                            "builds of the crate without its std feature have no std::io impls in the same process: there the embedded-io traces "
+                            "(counts, bytes, fill_buf chunks, contents and layout after every call) are compared with the traces of the same "
+                            "histories in the std build, which this check ties to std::io call by call"],
+                           "differential: " + IO_RULE, "as C14, for each of the three feature configurations", extra_cov=extra)
     if prop == "C13":
         runs = [("checked", "checked", ["cmp"]), ("release", "release", ["cmp"])]
         return run_reports(prop, tier, seed, runs, "replay-cmp",
@@ -285,6 +290,70 @@ def run_c18(tier, seed):
     sys.exit(0)
 
 
+NOSTD_EIO = [("eio-both-nostd", "embedded-io + embedded-io-async, crate built without std"),
+             ("eio-nostd", "embedded-io, crate built without std"),
+             ("eio-async-nostd", "embedded-io-async, crate built without std")]
+
+
+def eio_trace_violation(prop, tier, seed, t0, variant, case, msg):
+    path = cc.save_replay(prop, {"property": prop, "kind": "eio-trace", "build": variant, "case": case, "message": msg, "seed": seed,
+                                 "generator": "enumerative / proptest (trace comparison across builds)"})
+    cc.log(f"failing case ({variant}): {json.dumps(case)}")
+    cc.log(f"  {msg}")
+    cc.write_min_evidence(prop, tier, seed, time.time() - t0, 1, msg)
+    cc.log(f"VIOLATION property={prop} replay={path}")
+    sys.exit(1)
+
+
+def c16_nostd_traces(prop, tier, seed):
+    """The embedded-io impls in builds of the crate WITHOUT its std feature: there is no std::io impl in the same
+    process to compare with, so the same generated histories run in the std build (where the io engine ties the
+    embedded impls to std::io call by call) and in the no-std builds, and the full traces must be identical."""
+    t0 = time.time()
+    reps = {}
+    for v in ["eio-both"] + [v for v, _ in NOSTD_EIO]:
+        cc.build(v)
+        out = os.path.join(cc.OUT, f"{prop}.trace.{v}.json")
+        if os.path.exists(out):
+            os.remove(out)
+        p = subprocess.run([cc.binary(v), "eio-trace", "--tier", tier, "--seed", str(seed), "--out", out],
+                           stdout=subprocess.PIPE, stderr=subprocess.STDOUT, text=True, timeout=7200)
+        if p.returncode != 0 or not os.path.exists(out):
+            cc.log(p.stdout[-2000:])
+            cc.write_min_evidence(prop, tier, seed, time.time() - t0, 0, f"trace engine exit {p.returncode} on {v}")
+            cc.inconclusive(f"property={prop} trace run {v}: engine exit {p.returncode}")
+        reps[v] = json.load(open(out))
+        if reps[v].get("failure"):
+            f = reps[v]["failure"]
+            eio_trace_violation(prop, tier, seed, t0, v, f["case"], f"[{v}] " + f["message"])
+    ref = reps["eio-both"]
+    compared = 0
+    for v, _ in NOSTD_EIO:
+        for g, info in reps[v]["groups"].items():
+            compared += 1
+            if ref["groups"].get(g) == info:
+                continue
+            # localise: per-case digests of the group in both builds
+            dumps = {}
+            for b in ("eio-both", v):
+                p = subprocess.run([cc.binary(b), "eio-trace", "--tier", tier, "--seed", str(seed), "--dump", g],
+                                   stdout=subprocess.PIPE, stderr=subprocess.STDOUT, text=True, timeout=7200)
+                dumps[b] = p.stdout.splitlines()
+            for la, lb in zip(dumps["eio-both"], dumps[v]):
+                if la != lb:
+                    case = json.loads(lb.split(" ", 1)[1]) if not lb.startswith("FAIL") else json.loads(lb.split(" ", 2)[1])
+                    eio_trace_violation(prop, tier, seed, t0, v, case,
+                                        f"the embedded-io trace of this history in the build without the crate's std feature ({v}) differs from the "
+                                        f"trace in the std build, where the embedded impls agree with std::io (group {g})")
+            cc.write_min_evidence(prop, tier, seed, time.time() - t0, 0, f"group digests differ but no case does: {g}")
+            cc.inconclusive(f"property={prop}: group {g} differs between eio-both and {v} but no single case does")
+    return {"nostd_trace_comparison": {"reference_build": "eio-both (crate feature std on)", "builds": dict(NOSTD_EIO), "groups_compared": compared,
+                                        "cases_per_build": ref["evaluations"], "distinct_nontrivial_per_build": ref["distinct_nontrivial"],
+                                        "samples": ref.get("samples", [])[:4],
+                                        "rule": "non-trivial: a read / fill_buf delivered part of the contents only, a write overwrote, or consume exceeded the length"},
+            "_extra_evaluations": sum(r["evaluations"] for r in reps.values())}
+
+
 def core_only_builds(prop, tier, seed):
     """The sentence 'builds without std / with alloc only': the library is built against a sysroot that has
     only `core` (resp. `core` + `alloc`), where a stray std/alloc dependency cannot resolve."""
@@ -317,6 +386,23 @@ def core_only_builds(prop, tier, seed):
 
 def replay(prop, path):
     meta = json.load(open(path))
+    if prop == "C16" and meta.get("kind") == "eio-trace":
+        outs = {}
+        bad = False
+        for v in ["eio-both"] + [v for v, _ in NOSTD_EIO]:
+            cc.build(v)
+            p = subprocess.run([cc.binary(v), "replay-eio-trace", path], stdout=subprocess.PIPE, stderr=subprocess.STDOUT, text=True, timeout=120)
+            cc.log(f"--- build {v} (exit {p.returncode})")
+            cc.log(p.stdout.strip())
+            api_missing = "api not compiled in" in p.stdout
+            if api_missing:
+                continue
+            bad |= p.returncode != 0
+            outs[v] = [l for l in p.stdout.splitlines() if l.startswith("TRACE") or l.startswith("DIGEST")]
+        if bad or any(o != outs["eio-both"] for o in outs.values()):
+            cc.log(f"VIOLATION property={prop} replay={path}")
+            sys.exit(1)
+        sys.exit(0)
     if prop in ("C14", "C16"):
         variants = [meta["build"]] if meta.get("build") in cc.VARIANTS else (["checked", "release"] if prop == "C14" else ["eio-both"])
         bad = False
